@@ -54,6 +54,11 @@ Definition alloc (n : N) : parser unit :=
 Definition read_n (n : nat) : parser bytes :=
   fun s => if Nat.leb n (length s) then Ok (firstn n s) (skipn n s) else Err EEof.
 
+(* the same with the count still a wire value: compare in N first, so that a hostile
+   length is never turned into a unary number *)
+Definition read_nN (n : N) : parser bytes :=
+  fun s => if n <=? blen s then read_n (N.to_nat n) s else Err EEof.
+
 Definition read_byte : parser byte :=
   fun s => match s with [] => Err EEof | b :: s' => Ok b s' end.
 
@@ -93,7 +98,7 @@ Definition str_chunk : N := 1048576.
 Definition get_str : parser bytes :=
   n <- strlen ;;
   alloc (N.min n str_chunk) ;;;
-  read_n (N.to_nat n).
+  read_nN n.
 
 Definition get_u8 : parser N := pmap le_get (read_raw 1).
 Definition get_u16 : parser N := pmap le_get (read_raw 2).
